@@ -15,6 +15,7 @@ import (
 	"strconv"
 	"strings"
 	"sync"
+	"sync/atomic"
 	"syscall"
 	"time"
 
@@ -204,6 +205,11 @@ func drive(prop, tier string) int {
 		v, _ := strconv.Atoi(s)
 		wallCap = time.Duration(v) * time.Second
 	}
+	caseStall := 30 * time.Minute
+	if s := os.Getenv("VERIF_CASE_STALL_S"); s != "" {
+		v, _ := strconv.Atoi(s)
+		caseStall = time.Duration(v) * time.Second
+	}
 	W := runtime.NumCPU()
 	if s := os.Getenv("VERIF_WORKERS"); s != "" {
 		W, _ = strconv.Atoi(s)
@@ -273,6 +279,28 @@ func drive(prop, tier string) int {
 				rd := bufio.NewReaderSize(stdout, 1<<20)
 				cur := n
 				alive := true
+				// stall watchdog: a worker that produces no result for caseStall is killed; the case is
+				// reported as infrastructure trouble (exit 2), never as a violation, and not re-executed
+				var lastResult atomic.Int64
+				var stalled atomic.Bool
+				lastResult.Store(time.Now().UnixNano())
+				stopWatch := make(chan struct{})
+				go func() {
+					t := time.NewTicker(10 * time.Second)
+					defer t.Stop()
+					for {
+						select {
+						case <-stopWatch:
+							return
+						case <-t.C:
+							if time.Since(time.Unix(0, lastResult.Load())) > caseStall {
+								stalled.Store(true)
+								_ = cmd.Process.Kill()
+								return
+							}
+						}
+					}
+				}()
 				for alive {
 					fmt.Fprintf(stdin, "%d\n", cur)
 					got := false
@@ -293,21 +321,28 @@ func drive(prop, tier string) int {
 								results = append(results, &wo)
 								mu.Unlock()
 							}
+							lastResult.Store(time.Now().UnixNano())
 							got = true
 							break
 						}
 					}
 					if !alive {
 						_ = cmd.Wait()
+						close(stopWatch)
 						if !got {
 							mu.Lock()
-							deaths = append(deaths, death{cur, errBuf.String()})
+							if stalled.Load() {
+								infra = append(infra, fmt.Sprintf("case %d produced no result within %v: worker killed (harness or library spinning / blocked; run `vcheck case %s %s %d %d` to look at it)", cur, caseStall, prop, tier, seed, cur))
+							} else {
+								deaths = append(deaths, death{cur, errBuf.String()})
+							}
 							mu.Unlock()
 						}
 						break
 					}
 					cur = take()
 					if cur < 0 {
+						close(stopWatch)
 						stdin.Close()
 						_ = cmd.Wait()
 						return
